@@ -47,6 +47,24 @@ def rng(prog, an=None, files=None, table=None):
     files = files or {f.file for f in prog.fns.values() if f.file.startswith('asm/')}
     summ = ps.summaries(prog, files)
     fft = ps.file_field_taint(prog, files, summ)
+    # out-parameters that receive a value derived from a symbol-derived record field (`*offset = operands[0].value - pc`
+    # in a range helper): the plain summaries only know eval_expression as a source
+    for _ in range(3):
+        changed = False
+        for f_ in prog.fns.values():
+            if f_.file not in files or not f_.blocks:
+                continue
+            fi_ = ps.FnInfo(prog, f_, summ)
+            fi_.taint |= fft.get(f_.file, set())
+            fi_.solve()
+            out_ = {i for i, p in enumerate(f_.params()) if 'V:%s' % p['d'] in fi_.taint and
+                    '*' in (f_.types[p['t']] if isinstance(p.get('t'), int) else '')}
+            cur = summ.setdefault(f_.key, {'out': set(), 'ret': False, 'memo_out': set(), 'ret_memo': False})
+            if not out_ <= set(cur.get('out', ())):
+                cur['out'] = set(cur.get('out', ())) | out_
+                changed = True
+        if not changed:
+            break
     obs = []
     stats = {'functions': 0, 'mask_sites': 0, 'untainted_masks': 0, 'fields': 0}
     uncut = []
@@ -155,6 +173,10 @@ def rng(prog, an=None, files=None, table=None):
                     while p_ is not None and p_['k'] in ('ParenExpr', 'ImplicitCastExpr', 'CStyleCastExpr'):
                         p_ = fn.parent.get(p_['i'])
                     if p_ is not None and p_['k'] == 'BinaryOperator' and p_.get('op') in ('&', '>>'):
+                        continue
+                    # `v = v >> 1;` scales the value, it does not encode its high bits
+                    if p_ is not None and p_['k'] == 'BinaryOperator' and p_.get('op') == '=' and \
+                            show(strip(kids(p_)[0], casts=True)) == rtxt:
                         continue
                     U |= (0xffffffff << const(kids(x)[1])) & 0xffffffff
             low = (U & -U).bit_length() - 1
